@@ -3,6 +3,7 @@ package sqlx
 import (
 	"context"
 	"database/sql"
+	"errors"
 	"fmt"
 )
 
@@ -149,12 +150,21 @@ func transactOnConn(ctx context.Context, conn *sql.DB, b beginnable, fn func(con
 		return
 	}
 
+	// completed 仅在 fn 正常返回后才为 true：panic(nil)（go 1.21 之前 recover() 返回 nil）
+	// 和 runtime.Goexit 都不会让 recover() 返回非 nil，不能据此判断 fn 已成功。
+	completed := false
 	defer func() {
 		if p := recover(); p != nil {
 			if e := tx.Rollback(); e != nil {
 				err = fmt.Errorf("事务从 panic 中恢复：%v，回滚也失败了：%w", p, e)
 			} else {
 				err = fmt.Errorf("事务从 panic 中恢复：%v", p)
+			}
+		} else if !completed {
+			if e := tx.Rollback(); e != nil {
+				err = fmt.Errorf("事务函数未正常返回（panic(nil) 或 Goexit），回滚也失败了：%w", e)
+			} else {
+				err = errors.New("事务函数未正常返回（panic(nil) 或 Goexit），已回滚")
 			}
 		} else if err != nil {
 			if e := tx.Rollback(); e != nil {
@@ -165,5 +175,8 @@ func transactOnConn(ctx context.Context, conn *sql.DB, b beginnable, fn func(con
 		}
 	}()
 
-	return fn(ctx, tx)
+	err = fn(ctx, tx)
+	completed = true
+
+	return err
 }
